@@ -6,6 +6,10 @@ Never leaves /repo modified; refuses to start when /repo is dirty. Evidence file
 import json, os, subprocess, sys, time
 args = sys.argv[1:]
 tier = 'quick'
+use_wt = False
+if args and args[0] == '--worktree':      # do not touch /repo: apply the patch in a scratch worktree and point the check at it (FMV_REPO)
+    use_wt = True
+    args = args[1:]
 if args and args[0] == '--tier':
     tier = args[1]
     args = args[2:]
@@ -18,7 +22,8 @@ def sh(cmd, cwd=None, timeout=7200):
     return p.returncode, p.stdout
 
 
-assert sh('git -C /repo status --porcelain')[1].strip() == '', '/repo is dirty'
+if not use_wt:
+    assert sh('git -C /repo status --porcelain')[1].strip() == '', '/repo is dirty'
 results = {}
 for s in seeds:
     d = os.path.join(root, s)
@@ -26,18 +31,29 @@ for s in seeds:
     prop = meta.get('breaks') or meta.get('property')
     ev = '/verif/evidence/%s.json' % prop
     saved = open(ev).read() if os.path.exists(ev) else None
-    rc, o = sh('git apply %s/patch.diff' % d, cwd='/repo')
+    tree = '/repo'
+    if use_wt:
+        tree = '/tmp/seedchk_%s' % s
+        sh('git -C /repo worktree remove --force %s' % tree)
+        rc, o = sh('git -C /repo worktree add -q --detach %s HEAD' % tree)
+        assert rc == 0, o
+    rc, o = sh('git apply %s/patch.diff' % d, cwd=tree)
     if rc != 0:
         print('%s: PATCH DOES NOT APPLY: %s' % (s, o[:300]))
         results[s] = 'no-apply'
+        if use_wt:
+            sh('git -C /repo worktree remove --force %s' % tree)
         continue
     try:
         t0 = time.time()
-        rc, o = sh('./fmv check %s --tier %s' % (prop, tier), cwd='/verif')
+        rc, o = sh(('FMV_REPO=%s ' % tree if use_wt else '') + './fmv check %s --tier %s' % (prop, tier), cwd='/verif')
         wall = time.time() - t0
     finally:
-        sh('git checkout -- .', cwd='/repo')
-        assert sh('git -C /repo status --porcelain')[1].strip() == ''
+        if use_wt:
+            sh('git -C /repo worktree remove --force %s' % tree)
+        else:
+            sh('git checkout -- .', cwd='/repo')
+            assert sh('git -C /repo status --porcelain')[1].strip() == ''
         if saved is not None:
             open(ev, 'w').write(saved)
     viol = [l for l in o.splitlines() if l.startswith('VIOLATION')]
